@@ -378,6 +378,7 @@ def _main_run(mod, pid, args, seed):
     exit_code = 0
     printed = []
     known_report = []
+    replay_errors = []
 
     # 1. replay the committed findings
     for e in known:
@@ -391,8 +392,9 @@ def _main_run(mod, pid, args, seed):
             data, out, hits = run_replay(mod, rp, active_known if e.get("status") == "fixed" else ())
         except Exception:
             traceback.print_exc()
-            print("harness error: replay of %s crashed" % e.get("id"))
-            return 2
+            print("harness error: replay of %s crashed (the campaign still runs)" % e.get("id"))
+            replay_errors.append(e.get("id"))
+            continue
         if e.get("status") == "known":
             if hits:
                 line = "KNOWN-FINDING: property=%s %s [%s]" % (pid, e["what"], e["id"])
@@ -466,6 +468,8 @@ def _main_run(mod, pid, args, seed):
             print("  case:", json.dumps(_trunc(he["case"]), default=str)[:1500])
         if exit_code == 0:
             exit_code = 2
+    if replay_errors and exit_code == 0:
+        exit_code = 2
 
     wall = time.time() - t0
     distinct = len(agg["nontrivial"])
